@@ -24,7 +24,13 @@ CHECKS = {
          'and reads the context handed out for that token right after a delkey took effect; API returns log which other handed-out '
          'contexts were still live. LockTrace.tla re-executes the script semantics on the reconstructed key state (a deviating script '
          'is a rejected trace) and evaluates MutualExclusion, DoneBeforeRelease, Prompt (context done within ExtendInterval + 1 s after '
-         'the server shows the holder below the majority) and NoStuckWaiter per scenario.',
+         'the server shows the holder below the majority) and NoStuckWaiter per scenario. Round 2: causes of loss (CancelAtMajorityLoss over '
+         'the per-cause monitoring states; MC_lock_lossgen enumerates every combination of delete / expiry / failed extend that crosses '
+         'the majority with the predicted cancellation; LockTrace CancelAtKnownLoss: context done within 1.5 s and 20 driver heartbeats '
+         'after the holder was told of a majority of losses), the value of the expiry (LockTime.tla: timed model of one key, key alive '
+         'while extending; LockTrace ExtendsInTime: every extend carries an expiry within causal bounds [execution of the previous fresh '
+         'script + interval + validity, arrival + validity], repeats only after an invalidation; slow-round-trip scenarios), connection '
+         'loss of a parked waiter (Disconnect with the nil invalidation; counterexample of MC_lock_neg_nilinval replayed).',
     design_ref='DESIGN.md 4.6, 5 C34, 7 #13, A.4; design/lockaside.md',
     note='Trusted: TLC, fakeredis + luamini as the Redis double (tracking, invalidation on expiry, PXAT), the sink reading contexts under '
          'the dispatcher mutex. Bounded: TLC 2-3 callers, K=3; real runs approximate the order of the TLC behaviour they come from and '
